@@ -348,6 +348,56 @@ func (w *world) fullTable() table {
 	return t
 }
 
+// shape walks the (version 0) proof that covers the whole tree.
+type shape struct {
+	internal  int    // internal nodes
+	pathDepth int    // internal nodes on the longest root-to-leaf path
+	leafBytes uint64 // sum of LeafNode.Size() over all leaves
+}
+
+func (w *world) shape() shape {
+	rsp, err := w.tree.SyncIterate(ctx, &syncer.IterateRequest{Tree: w.treeID(), Key: []byte{}, Prefetch: 10000})
+	if err != nil {
+		panic(err)
+	}
+	es := decodeAll(rsp.Proof.Entries)
+	var sh shape
+	var rec func(idx, d int) int
+	rec = func(idx, d int) int {
+		if idx >= len(es) {
+			return idx
+		}
+		e := es[idx]
+		switch e.Kind {
+		case "leaf":
+			sh.leafBytes += node.LeafNodeSize + uint64(len(e.K)+len(e.V))
+		case "int":
+			sh.internal++
+			if d+1 > sh.pathDepth {
+				sh.pathDepth = d + 1
+			}
+			if e.HasLf {
+				sh.leafBytes += node.LeafNodeSize + uint64(len(e.LK)+len(e.LV))
+			}
+			nx := rec(idx+1, d+1)
+			return rec(nx, d+1)
+		}
+		return idx + 1
+	}
+	rec(0, 0)
+	return sh
+}
+
+func countInternal(p *syncer.Proof) int {
+	n := 0
+	for _, e := range decodeAll(p.Entries) {
+		if e.Kind == "int" {
+			n++
+		}
+	}
+	return n
+}
+
 func decodeAll(raw [][]byte) []SEntry {
 	out := make([]SEntry, len(raw))
 	for i, r := range raw {
@@ -1053,14 +1103,14 @@ func runVerify(c Case, sum *coqout.Summary, seen map[string]bool) groupResult {
 		}
 		// S: the returned subtree stands for the trusted root, and read directly
 		// (without any fetch) no key resolves contrary to the contents
-		if h := v.ptr.GetHash(); !h.Equal(&w.root.Hash) {
-			res.violations = append(res.violations, map[string]any{"what": fmt.Sprintf("accepted proof: the subtree VerifyProof returned has hash %s, the trusted root is %s", h, w.root.Hash), "case": single(m)})
-		}
 		for _, k := range uni {
 			if a := readPtr(v.ptr, 0, k); a != "U" && a != truth(w, k) {
 				res.violations = append(res.violations, map[string]any{"what": fmt.Sprintf("accepted proof: in the subtree VerifyProof returned key %x resolves to %q, the tree says %q", k, a, truth(w, k)), "case": single(m)})
 				break
 			}
+		}
+		if h := v.ptr.GetHash(); !h.Equal(&w.root.Hash) {
+			res.violations = append(res.violations, map[string]any{"what": fmt.Sprintf("accepted proof: the subtree VerifyProof returned has hash %s, the trusted root is %s", h, w.root.Hash), "case": single(m)})
 		}
 		for _, kv := range w.sorted {
 			if readPtr(v.ptr, 0, node.Key(kv.K)) == "A" {
@@ -1176,6 +1226,7 @@ type mixSyncer struct {
 	corrupt int
 	other   *Mut
 	stats   map[string]int
+	maxResp int // largest number of internal nodes in one response handed out
 }
 
 func (s *mixSyncer) answer(honest func() (*syncer.ProofResponse, error)) (*syncer.ProofResponse, error) {
@@ -1185,6 +1236,9 @@ func (s *mixSyncer) answer(honest func() (*syncer.ProofResponse, error)) (*synce
 	}
 	if !s.r.Chance(s.corrupt) {
 		s.stats["honest"]++
+		if n := countInternal(&rsp.Proof); n > s.maxResp {
+			s.maxResp = n
+		}
 		return &syncer.ProofResponse{Proof: *copyProof(&rsp.Proof)}, nil
 	}
 	if s.r.Chance(15) {
@@ -1193,6 +1247,9 @@ func (s *mixSyncer) answer(honest func() (*syncer.ProofResponse, error)) (*synce
 	}
 	s.stats["corrupt"]++
 	m := mutate(s.r, mutOf("", &rsp.Proof), s.other, 1)[0]
+	if n := countInternal(m.proof()); n > s.maxResp {
+		s.maxResp = n
+	}
 	return &syncer.ProofResponse{Proof: *m.proof()}, nil
 }
 func (s *mixSyncer) SyncGet(_ context.Context, rq *syncer.GetRequest) (*syncer.ProofResponse, error) {
@@ -1205,7 +1262,41 @@ func (s *mixSyncer) SyncIterate(_ context.Context, rq *syncer.IterateRequest) (*
 	return s.answer(func() (*syncer.ProofResponse, error) { return s.w.tree.SyncIterate(ctx, rq) })
 }
 
-func runRemote(c Case, sum *coqout.Summary) (viols []map[string]any) {
+// remoteInfo: what decides the class of a session.
+type remoteInfo struct {
+	honestOnly bool // every response handed to the tree was the honest one
+	maxResp    int  // largest response, in internal nodes
+	sh         shape
+	nodeCap    uint64
+	valCap     uint64
+}
+
+// ample: the whole tree plus a path fits (nothing can be evicted for lack of room).
+func (i remoteInfo) ample() bool {
+	return (i.nodeCap == 0 || i.nodeCap >= uint64(i.sh.internal+i.sh.pathDepth)) && (i.valCap == 0 || i.valCap >= i.sh.leafBytes)
+}
+
+// belowResponsePlusPath: the documented shape of the known cache finding: fewer
+// internal-node slots than the largest response plus the path to the fetched node.
+func (i remoteInfo) belowResponsePlusPath() bool {
+	return i.nodeCap > 0 && i.nodeCap < uint64(i.maxResp+i.sh.pathDepth)
+}
+
+func (i remoteInfo) class() string {
+	peer := "corrupt-peer"
+	if i.honestOnly {
+		peer = "honest-responses-only"
+	}
+	switch {
+	case i.ample():
+		return peer + "/ample-cache"
+	case i.belowResponsePlusPath():
+		return peer + "/cache<response+path"
+	}
+	return peer + "/cache-between"
+}
+
+func runRemote(c Case, sum *coqout.Summary) (viols []map[string]any, info remoteInfo) {
 	defer func() {
 		if r := recover(); r != nil {
 			viols = append(viols, map[string]any{"what": fmt.Sprintf("panic in a remote-backed tree: %v", r), "case": c})
@@ -1222,14 +1313,21 @@ func runRemote(c Case, sum *coqout.Summary) (viols []map[string]any) {
 		panic(err)
 	}
 	om := mutOf("", &orsp.Proof)
-	ms := &mixSyncer{w: w, r: r, corrupt: c.Corrupt, other: &om, stats: map[string]int{}}
+	// the syncer draws from its own stream: the operations of a session do not
+	// depend on how many responses were corrupted
+	ms := &mixSyncer{w: w, r: r.Fork(), corrupt: c.Corrupt, other: &om, stats: map[string]int{}}
 	rt := mkvs.NewWithRoot(ms, nil, w.root, mkvs.Capacity(c.NodeCap, c.ValCap))
 	defer rt.Close()
 	bad := func(what string) {
 		viols = append(viols, map[string]any{"what": what, "case": c})
 	}
-	// with an honest syncer and an unbounded cache nothing may fail
-	strict := c.Corrupt == 0 && c.NodeCap == 0 && c.ValCap == 0
+	info = remoteInfo{sh: w.shape(), nodeCap: c.NodeCap, valCap: c.ValCap}
+	defer func() {
+		info.honestOnly = ms.stats["corrupt"] == 0 && ms.stats["error"] == 0
+		info.maxResp = ms.maxResp
+	}()
+	// with an honest syncer and a cache that holds the whole tree nothing may fail
+	strict := c.Corrupt == 0 && info.ample()
 	for i := 0; i < c.Ops && len(viols) == 0; i++ {
 		sum.Evaluations++
 		switch r.Intn(5) {
@@ -1307,7 +1405,7 @@ const cacheFindingKey = "C04:bounded-cache-remote-tree-wrong-answer"
 
 // shrinkRemote: fewer operations, then fewer keys, while the session still fails.
 func shrinkRemote(c Case) Case {
-	fails := func(x Case) bool { return len(runRemote(x, coqout.NewSummary(""))) > 0 }
+	fails := func(x Case) bool { v, _ := runRemote(x, coqout.NewSummary("")); return len(v) > 0 }
 	for c.Ops > 1 {
 		x := c
 		x.Ops = c.Ops - 1
@@ -1389,7 +1487,7 @@ func main() {
 		os.Exit(2)
 	}
 	wb := coqout.NewWriter(*out, coqHeader, "run_c04", "c04_eqb", 12)
-	sum := coqout.NewSummary("seeded trees of 0-12 keys over the byte alphabet {00,01,80,ff} (length 0-4, prefix/extension heavy, empty key), values 0-8 bytes; per tree 4 key-lookup proofs (versions 0/1 x siblings off/on; present / extension / prefix / random query), one SyncIterate (prefetch 0-10) and one SyncGetPrefixes (limit 0-10) proof, each with its mutants; evaluation = one candidate proof through the real VerifyProof+VerifyProofToWriteLog (plus remote-backed Gets), one SyncGet compared with the model builder, or one operation on a remote-backed tree; non-trivial = candidate with >= 2 entries; distinct = distinct (root, version, untrusted root, entry list)")
+	sum := coqout.NewSummary("seeded trees of 0-12 keys over the byte alphabet {00,01,80,ff} (length 0-4, prefix/extension heavy, empty key), values 0-8 bytes; per tree 4 key-lookup proofs (versions 0/1 x siblings off/on; present / extension / prefix / random query), one SyncIterate (prefetch 0-10) and one SyncGetPrefixes (limit 0-10) proof, each with its mutants plus 8 forged proofs against the non-empty trusted root (single nil entry, single empty-hash entry, single root-hash entry, an unrelated one-key tree's proof re-labelled; versions 0/1); remote sessions: honest peer / corrupt peer x cache capacities, classified by (responses honest only?, cache vs tree size, cache vs largest response + path); evaluation = one candidate proof through the real VerifyProof+VerifyProofToWriteLog (plus remote-backed Gets), one SyncGet compared with the model builder, or one operation on a remote-backed tree; non-trivial = candidate with >= 2 entries; distinct = distinct (root, version, untrusted root, entry list)")
 	seen := map[string]bool{}
 
 	runCase := func(c Case) {
@@ -1409,16 +1507,23 @@ func main() {
 				sum.Violations = append(sum.Violations, v)
 			}
 		case "remote":
-			viols := runRemote(c, sum)
+			viols, info := runRemote(c, sum)
+			sum.Count("remote-session-class", info.class())
 			if len(viols) > 0 {
+				sum.Count("remote-session-failed", info.class())
 				c = shrinkRemote(c)
-				viols = runRemote(c, coqout.NewSummary(""))
+				viols, info = runRemote(c, coqout.NewSummary(""))
+				sum.Count("remote-session-failed-after-shrink", info.class())
 			}
 			for _, v := range viols {
-				if c.NodeCap != 0 || c.ValCap != 0 {
-					// wrong answers that need a bounded node cache are reported under one key
-					sum.Findings = append(sum.Findings, coqout.Finding{Key: cacheFindingKey, What: v["what"].(string) + fmt.Sprintf(" (node cache capacity %d nodes / %d value bytes)", c.NodeCap, c.ValCap), Replay: map[string]any{"case": c}})
+				what := v["what"].(string) + fmt.Sprintf(" [%s; node cache %d nodes / %d value bytes; largest response %d internal nodes, longest path %d, tree %d internal nodes]",
+					info.class(), c.NodeCap, c.ValCap, info.maxResp, info.sh.pathDepth, info.sh.internal)
+				if info.honestOnly && info.belowResponsePlusPath() {
+					// the documented shape of the known finding: honest responses only and
+					// fewer node slots than the largest response plus the path
+					sum.Findings = append(sum.Findings, coqout.Finding{Key: cacheFindingKey, What: what, Replay: map[string]any{"case": c}})
 				} else {
+					v["what"] = what
 					sum.Violations = append(sum.Violations, v)
 				}
 			}
@@ -1497,9 +1602,13 @@ func main() {
 		prev = last
 		w.tree.Close()
 		// (d) remote sessions: one honest, one adversarial
-		caps := [][2]uint64{{0, 0}, {1, 1}, {2, 16}, {3, 64}, {50, 4096}}
+		caps := [][2]uint64{{0, 0}, {1, 1}, {2, 16}, {3, 64}, {6, 600}, {50, 8192}}
+		ampleCaps := [][2]uint64{{0, 0}, {50, 8192}, {0, 8192}, {50, 0}}
+		// honest peer, any cache; corrupt peer, ample cache; corrupt peer, any cache
 		cp := caps[cr.Intn(len(caps))]
 		runCase(Case{Kind: "remote", KVs: kvs, Seed: cr.U64(), NodeCap: cp[0], ValCap: cp[1], Corrupt: 0, Ops: 12})
+		cp = ampleCaps[cr.Intn(len(ampleCaps))]
+		runCase(Case{Kind: "remote", KVs: kvs, Seed: cr.U64(), NodeCap: cp[0], ValCap: cp[1], Corrupt: 40, Ops: 25})
 		cp = caps[cr.Intn(len(caps))]
 		runCase(Case{Kind: "remote", KVs: kvs, Seed: cr.U64(), NodeCap: cp[0], ValCap: cp[1], Corrupt: 40, Ops: 25})
 		sum.Sample(map[string]any{"kvs": kvs, "queries": queries}, 3)
